@@ -60,6 +60,19 @@ QuietInitAdapter = _make_adapter_class()
 QuietInitAdapter.__qualname__ = "QuietInitAdapter"
 
 
+def _tell_parent(rec):
+    """Real process pool: what happens in a worker process is reported to the main process
+    through an append-only file (one JSON line per event)."""
+    path = PLAN.get("fire_file")
+    if path:
+        import json
+        fd = os.open(path, os.O_WRONLY | os.O_APPEND | os.O_CREAT)
+        try:
+            os.write(fd, (json.dumps(rec) + "\n").encode())
+        finally:
+            os.close(fd)
+
+
 def _hit(fn):
     cid = current_cid()
     if cid is None:
@@ -68,13 +81,25 @@ def _hit(fn):
     with PLAN["lock"]:
         k = PLAN["counts"].get(key, 0)
         PLAN["counts"][key] = k + 1
+        PLAN.setdefault("iter_of", {})[(cid, fn, k)] = PLAN["iters"].get(cid, 0) - 1
         if PLAN["fired"] is not None and PLAN["fired"][0] == cid:
             PLAN["after"].append((cid, fn, k))
+            _tell_parent({"after": [cid, fn, k]})
         fire = PLAN["target"] == (cid, fn, k) and PLAN["fired"] is None
         if fire:
             PLAN["fired"] = (cid, fn, k)
             PLAN["fired_iter"] = PLAN["iters"].get(cid, 0) - 1
+            _tell_parent({"fired": [cid, fn, k], "fired_iter": PLAN["fired_iter"]})
     if fire:
+        if PLAN.get("real_signal"):
+            # a real Ctrl-C: SIGINT to the main process and to this worker process.  If the
+            # signal is (wrongly) ignored nothing is raised and the callback just returns.
+            import signal
+            import time
+            os.kill(PLAN["main_pid"], signal.SIGINT)
+            signal.raise_signal(signal.SIGINT)
+            time.sleep(0.3)
+            return
         raise KeyboardInterrupt
 
 
@@ -156,7 +181,28 @@ def _tracked_open_memmap(*a, **k):
     return m.view(TrackedMemmap) if isinstance(m, np.memmap) else m
 
 
-def run_once(cfg, n_process, target, memdir=None):
+def run_once(cfg, n_process, target, memdir=None, real_signal=False):
+    PLAN["real_signal"] = bool(real_signal)
+    PLAN["main_pid"] = os.getpid()
+    PLAN["fire_file"] = None
+    if cfg["mode"] == "real" and n_process != 1:
+        fd, path = tempfile.mkstemp(prefix="c15_events_")
+        os.close(fd)
+        PLAN["fire_file"] = path
+        try:
+            res = _run_once(cfg, n_process, target, memdir)
+            import json
+            for line in open(path).read().splitlines():
+                ev = json.loads(line)
+                if "fired" in ev and res["fired"] is None:
+                    res["fired"] = tuple(ev["fired"])
+                    res["fired_iter"] = ev["fired_iter"]
+                elif "after" in ev:
+                    res["after"].append(tuple(ev["after"]))
+            return res
+        finally:
+            PLAN["fire_file"] = None
+            os.unlink(path)
     track = memdir is not None and cfg["mode"] != "real"
     if not track:
         return _run_once(cfg, n_process, target, memdir)
@@ -172,8 +218,14 @@ def run_once(cfg, n_process, target, memdir=None):
 
 def _run_once(cfg, n_process, target, memdir=None):
     """Run with an interrupt at `target` (or None).  Returns dict or raises."""
+    from mc import explore_sched as ES
+    ES.PARENT_FAULT.update(label="iter_queue.get", k=None, count=0, fired=False)
+    if target is not None and target[0] == "parent":
+        ES.PARENT_FAULT["k"] = target[2]
+        target = None
     PLAN["target"] = target
     PLAN["counts"] = {}
+    PLAN["iter_of"] = {}
     PLAN["fired"] = None
     PLAN["after"] = []
     PLAN["iters"] = {}
@@ -197,7 +249,9 @@ def _run_once(cfg, n_process, target, memdir=None):
         for fn in sorted(os.listdir(memdir)):
             if fn.endswith(".npy"):
                 files[fn] = np.load(os.path.join(memdir, fn))
-    return {"traces": traces, "stats": stats, "finals": finals, "files": files,
+    return {"parent_gets": ES.PARENT_FAULT["count"], "parent_fired": ES.PARENT_FAULT["fired"],
+            "traces": traces, "stats": stats, "finals": finals, "files": files,
+            "iter_of": dict(PLAN["iter_of"]),
             "counts": dict(PLAN["counts"]), "fired": PLAN["fired"], "after": list(PLAN["after"]),
             "n_warm": n_warm, "fired_iter": PLAN["fired_iter"]}
 
@@ -219,8 +273,45 @@ STAT_FILL = {"n_step": -1, "accept_stat": float("nan"), "non_reversible_step": F
              "reject_prob": float("nan"), "tree_depth": -1, "diverging": False}
 
 
+def judge_parent(cfg, ref, res, acc, viol):
+    """Interrupt delivered to the main process only: the workers are not disturbed, so every chain
+    holds a consistent prefix (rows equal to the reference, then only fill values), whole stages
+    are either complete for all chains or not started, and final states are recorded states."""
+    if not res["parent_fired"]:
+        return "not_reached"
+    arrays = [("trace:" + key, ref["traces"][key], res["traces"][key], None)
+              for key in ref["traces"]] + \
+             [("stat:" + key, ref["stats"][key], res["stats"][key], STAT_FILL.get(key))
+              for key in ref["stats"]]
+    n_rows = len(next(iter(ref["traces"].values()))[0])
+    for c in range(cfg["n_chain"]):
+        seen_fill = False
+        for r in range(n_rows):
+            same = all(np.array_equal(xa[c][r], ra[c][r], equal_nan=True)
+                       for _, ra, xa, _ in arrays)
+            fill = all(is_fill(xa[c][r], xa[c].dtype.kind, d) for _, _, xa, d in arrays)
+            if not same and not fill:
+                viol("parent_interrupt:row_neither_reference_nor_fill", {"chain": c, "row": r},
+                     "prefix of the uninterrupted run")
+                return "violation"
+            if seen_fill and not fill:
+                viol("parent_interrupt:row_written_after_a_gap", {"chain": c, "row": r},
+                     "prefix of the uninterrupted run")
+                return "violation"
+            seen_fill = seen_fill or (fill and not same)
+    for c, fin in enumerate(res["finals"]):
+        pos = np.asarray(fin["pos"])
+        if not np.all(np.isfinite(pos)):
+            viol("parent_interrupt:final_state_not_finite", pos, "valid chain state", chain=c)
+            return "violation"
+    acc.count("verdict_ok_parent")
+    return "ok"
+
+
 def judge(cfg, ref, res, target, mode, acc, viol):
     """Compare an interrupted run with the uninterrupted reference."""
+    if target[0] == "parent":
+        return judge_parent(cfg, ref, res, acc, viol)
     cid, fn, k = target
     n_chain = cfg["n_chain"]
     n_rows = len(next(iter(ref["traces"].values()))[0])
@@ -372,6 +463,9 @@ def judge(cfg, ref, res, target, mode, acc, viol):
 
 def crash_points(ref, cfg):
     pts = []
+    if cfg["mode"] == "simulated":
+        # SIGINT delivered to the main process at each of its blocking waits for progress
+        pts += [("parent", "iter_queue.get", k) for k in range(ref.get("parent_gets", 0))]
     for (cid, fn), n in sorted(ref["counts"].items()):
         for k in range(n):
             pts.append((cid, fn, k))
@@ -417,7 +511,16 @@ def check_config(cfg, acc):
                 import shutil
                 shutil.rmtree(memdir, ignore_errors=True)
 
-    status, ref = execute(None)
+    if mode == "real":
+        # call counts (the interrupt points) are made in the worker processes: the reference -
+        # rows, final states, per-chain call counts - is the sequential run, which by C14 equals
+        # the parallel one
+        try:
+            status, ref = "ok", run_once(cfg, 1, None, None)
+        except BaseException as e:  # noqa: BLE001
+            status, ref = "exc", e
+    else:
+        status, ref = execute(None)
     if status != "ok":
         acc.violation(driver="interrupt", config=cfg, fields={**F, "what": "reference_run_failed",
                                                              "callback": None},
@@ -432,6 +535,13 @@ def check_config(cfg, acc):
                           kind="inconsistent_prefix", observed=dirty, expected="all flushed")
             return
     pts = crash_points(ref, cfg)
+    if mode == "real" and ref["n_warm"]:
+        # every stage of a real multi-process run has its own freshly forked workers, whose call
+        # counters start again: only interrupt points of the first stage can be addressed
+        # (the later stages are covered by the simulated pool)
+        n_all = len(pts)
+        pts = [t for t in pts if ref["iter_of"].get(tuple(t), 0) < ref["n_warm"]]
+        acc.count("real_points_beyond_first_stage_not_addressable", n_all - len(pts))
     acc.count("crash_points", len(pts))
     for target in pts:
         viol = mkviol(target)
@@ -467,9 +577,87 @@ def check_config(cfg, acc):
         else:
             acc.count("evaluations")
             _judge_one(cfg, ref, execute(target), target, mode, acc, viol, None)
+    if mode == "real":
+        # the same interrupt points of the trace function, delivered as REAL signals (SIGINT to
+        # the main process and to the worker).  A KeyboardInterrupt landing inside CPython's
+        # multiprocessing / pickling machinery can corrupt the interpreter itself (seen: a
+        # segmentation fault during garbage collection), so every such run happens in a
+        # throw-away interpreter; a crashed or silent child is "inconclusive", never a violation.
+        # OS timing cannot be replayed: a violation is recorded only when three consecutive
+        # children give the same verdict.
+        import json
+        import subprocess
+        import sys
+        for target in [t for t in pts if t[1] == "trace"]:
+            acc.count("evaluations")
+            acc.count("real_signal_points")
+            verdicts = []
+            for _ in range(3):
+                try:
+                    out = subprocess.run(
+                        [sys.executable, "-c",
+                         "import sys, json; from mc.props import c15; "
+                         "c15.signal_probe_main(json.loads(sys.argv[1]), json.loads(sys.argv[2]))",
+                         json.dumps(cfg), json.dumps(list(target))],
+                        capture_output=True, text=True, timeout=180, check=False)
+                    lines = [ln for ln in out.stdout.splitlines() if ln.startswith("VERDICT ")]
+                    v = json.loads(lines[-1][8:]) if lines else {"inconclusive": out.returncode}
+                except subprocess.TimeoutExpired:
+                    v = {"verdict": "real_signal:hang"}
+                acc.count("real_signal_runs")
+                if "inconclusive" in v:
+                    acc.count("real_signal_inconclusive")
+                    verdicts.append("?inconclusive")
+                    continue
+                verdicts.append(v["verdict"])
+                if v["verdict"] is None:
+                    break
+            if len(verdicts) == 3 and len(set(verdicts)) == 1 and \
+                    verdicts[0] not in (None, "?inconclusive"):
+                mkviol(target)(verdicts[0], "three consecutive runs", "consistent prefix",
+                               no_confirm=True)
+            else:
+                acc.count("verdict_ok_real_signal")
     acc.count("cases")
     if len(acc.samples) < 3:
         acc.sample({"config": cfg, "crash_points": len(pts), "example": list(pts[:3])})
+
+
+def signal_probe_main(cfg, target):
+    """Child interpreter: sequential reference, then ONE real-pool run in which the interrupt
+    point sends real SIGINTs; prints `VERDICT {"verdict": <what or null>}`."""
+    import json
+    import signal
+    from mc.runner import Acc, WatchdogTimeout, run_with_alarm
+
+    target = tuple(target)
+    ref = run_once(cfg, 1, None, None)
+    old_handler = signal.getsignal(signal.SIGINT)
+    seen = []
+    try:
+        try:
+            r = ("ok", run_with_alarm(120, run_once, cfg, cfg["n_process"], target, None, True))
+        except WatchdogTimeout as e:
+            r = ("hang", str(e))
+        except BaseException as e:  # noqa: BLE001
+            r = ("exc", e)
+        handler_after = signal.getsignal(signal.SIGINT)
+        signal.signal(signal.SIGINT, old_handler)
+
+        def collect(what, obs, exp, **kw):
+            seen.append("real_signal:" + what)
+
+        if r[0] == "ok" and r[1]["fired"] is None:
+            seen.append("real_signal:interrupt_point_not_reached")
+        elif r[0] == "ok" and handler_after == signal.SIG_IGN:
+            seen.append("real_signal:sigint_left_ignored_in_main_process")
+        else:
+            _judge_one(cfg, ref, r, target, "real", Acc(), collect, None)
+    except KeyboardInterrupt:
+        # a late signal reached the harness itself: this run says nothing
+        print("VERDICT " + json.dumps({"inconclusive": "late_signal"}), flush=True)
+        return
+    print("VERDICT " + json.dumps({"verdict": seen[0] if seen else None}), flush=True)
 
 
 def _judge_one(cfg, ref, r, target, mode, acc, viol, schedule):
